@@ -117,6 +117,7 @@ TrTx ==
             <<(dec /\ ~Ev.env.sig_ok) => Ev.nraw = 0, "C09", "unauthentic bytes changed the state">>,
             <<(~dec) => Ev.nraw = 0, "C09", "undecodable bytes changed the state">>,
             <<adv => Ev.id \notin executed, "C09", "the same signed bytes took effect twice">>,
+            <<(~sys /\ Ev.nraw > 0) => adv, "C09", "bytes changed the state without consuming the signer's nonce (they stay replayable)">>,
             \* C08
             <<(~ok /\ ~adv) => Ev.nraw = 0, "C08", "transaction rejected at authentication changed the state">>,
             <<(~ok /\ adv) => (Ev.nraw = 1 /\ OnlyFeeAndNonce(M, s) /\ Gen(M, s) = Gen(L, s) - fee),
